@@ -46,8 +46,12 @@ class DensityData:
                 logger.info("Writing new sense swapped DensityData...")
                 # We need to swap values, prepare a new file, and then write to
                 # it.
-                shutil.copyfile(input_h5, swapped_filename)
-                self.data_frame = h5py.File(swapped_filename, "r+")
+                # NB build the copy under a temporary name, so that an
+                # interrupted load can not leave a raw or half swapped file
+                # under the name that later loads trust
+                tmp_filename = swapped_filename + ".tmp"
+                shutil.copyfile(input_h5, tmp_filename)
+                self.data_frame = h5py.File(tmp_filename, "r+")
 
                 self.gene_list = [
                     gene.decode("utf-8") for gene in self.data_frame["GENE_NAMES"][:]
@@ -61,6 +65,9 @@ class DensityData:
                     zero_gene_list, :
                 ].index.tolist()
                 self._swap_strand_vals(genes_to_swap)
+                self.data_frame.close()
+                os.replace(tmp_filename, swapped_filename)
+                self.data_frame = h5py.File(swapped_filename, "r")
         else:
             # If we don't want to swap the values, we just read the file, and
             # continue as normal
